@@ -47,19 +47,42 @@ def generate(repo, emit, src, func_body):
     def fn(name, ret=r'(?:static\s+)?[\w\*\s]+?'):
         return func_body(s, r'static\s+\w+\s+%s\s*\([^)]*\)\s*\{' % name)
 
-    # --- String_Assign
+    # --- String_Assign: two accepted shapes
+    #   old: char* val = c_str(obj); .. realloc(s->val, strlen(val) + 1); .. strcpy(s->val, val);
+    #   new: size_t n = strlen(c_str(obj)); .. realloc(s->val, n + 1); .. memmove(s->val, c_str(obj), n + 1);
     b = fn('String_Assign')
-    e = _expr(_realloc_arg(b), {'strlen(val)': 'vl'}, False) if b and _realloc_arg(b) else None
-    ok = e and re.search(r'strcpy\s*\(\s*s->val\s*,\s*val\s*\)', b) and re.search(r'char\s*\*\s*val\s*=\s*c_str\s*\(\s*obj\s*\)', b)
+    ra = _realloc_arg(b) if b else None
+    e, safe = None, None
+    if ra and re.search(r'char\s*\*\s*val\s*=\s*c_str\s*\(\s*obj\s*\)', b) and re.search(r'strcpy\s*\(\s*s->val\s*,\s*val\s*\)', b):
+        e, safe = _expr(ra, {'strlen(val)': 'vl'}, False), 'false'
+    elif ra and re.search(r'size_t\s+n\s*=\s*strlen\s*\(\s*c_str\s*\(\s*obj\s*\)\s*\)\s*;', b) and \
+            re.search(r'memmove\s*\(\s*s->val\s*,\s*c_str\s*\(\s*obj\s*\)\s*,\s*n\s*\+\s*1\s*\)', b) and \
+            b.find('memmove') > b.find('realloc(') > b.find('size_t n'):
+        e, safe = _expr(ra, {'n': 'vl'}, False), 'true'
     emit('string_assign_alloc', ('Definition string_assign_alloc (vl : nat) : nat := %s.   (* source: realloc(s->val, %s) *)'
-                                 % (e, _realloc_arg(b).strip())) if ok else None)
+                                 % (e, ra.strip())) if e else None)
+    emit('string_assign_self_safe', ('Definition string_assign_self_safe : bool := %s.   (* %s *)'
+                                     % (safe, 'length first, memmove from c_str(obj) after the realloc' if safe == 'true'
+                                        else 'strcpy from a pointer fetched before the realloc')) if e else None)
 
-    # --- String_Concat
+    # --- String_Concat: two accepted shapes
+    #   old: realloc(s->val, strlen(s->val) + strlen(c_str(obj)) + 1); .. strcat(s->val, c_str(obj));
+    #   new: size_t n = strlen(s->val); size_t m = strlen(c_str(obj)); realloc(s->val, n + m + 1); ..
+    #        memcpy(s->val + n, c_str(obj), m); s->val[n + m] = '\0';
     b = fn('String_Concat')
-    e = _expr(_realloc_arg(b), {'strlen(s->val)': 'sl', 'strlen(c_str(obj))': 'vl'}, False) if b and _realloc_arg(b) else None
-    ok = e and re.search(r'strcat\s*\(\s*s->val\s*,\s*c_str\s*\(\s*obj\s*\)\s*\)', b)
+    ra = _realloc_arg(b) if b else None
+    e, safe = None, None
+    if ra and re.search(r'strcat\s*\(\s*s->val\s*,\s*c_str\s*\(\s*obj\s*\)\s*\)', b):
+        e, safe = _expr(ra, {'strlen(s->val)': 'sl', 'strlen(c_str(obj))': 'vl'}, False), 'false'
+    elif ra and re.search(r'size_t\s+n\s*=\s*strlen\s*\(\s*s->val\s*\)\s*;\s*size_t\s+m\s*=\s*strlen\s*\(\s*c_str\s*\(\s*obj\s*\)\s*\)\s*;', b) and \
+            re.search(r'mem(?:cpy|move)\s*\(\s*s->val\s*\+\s*n\s*,\s*c_str\s*\(\s*obj\s*\)\s*,\s*m\s*\)\s*;\s*s->val\s*\[\s*n\s*\+\s*m\s*\]\s*=\s*\'\\0\'\s*;', b) and \
+            b.find('memcpy') + b.find('memmove') + 1 > b.find('realloc(') > b.find('size_t m'):
+        e, safe = _expr(ra, {'n': 'sl', 'm': 'vl'}, False), 'true'
     emit('string_concat_alloc', ('Definition string_concat_alloc (sl vl : nat) : nat := %s.   (* source: realloc(s->val, %s) *)'
-                                 % (e, _realloc_arg(b).strip())) if ok else None)
+                                 % (e, ra.strip())) if e else None)
+    emit('string_concat_self_safe', ('Definition string_concat_self_safe : bool := %s.   (* %s *)'
+                                     % (safe, 'lengths first, memcpy from c_str(obj) after the realloc, explicit terminator' if safe == 'true'
+                                        else 'strcat(s->val, c_str(obj))')) if e else None)
 
     # --- String_Resize
     b = fn('String_Resize')
